@@ -86,6 +86,27 @@ RefEscape(n) == IF n = <<>> THEN <<>>
 (* document and the Python SDK do not; the statement is silent).           *)
 Unambiguous(t) == \A i \in 1 .. Len(t) - 1 : ~(t[i] = BS /\ t[i+1] = BS)
 
+(* "A manifest is utf-8 encoded text": which byte sequences are.  Utf8Len = *)
+(* length of the well-formed UTF-8 sequence starting at t[i], 0 if none    *)
+(* (the definition of the Unicode standard, = Go's utf8.DecodeRune).       *)
+Cont(c) == c >= 128 /\ c <= 191
+Utf8Len(t, i) ==
+    LET c == t[i]
+        at(k) == IF i + k <= Len(t) THEN t[i + k] ELSE 0
+    IN IF c < 128 THEN 1
+       ELSE IF c >= 194 /\ c <= 223 /\ Cont(at(1)) THEN 2
+       ELSE IF c >= 224 /\ c <= 239 /\ Cont(at(1)) /\ Cont(at(2))
+               /\ (c = 224 => at(1) >= 160) /\ (c = 237 => at(1) <= 159) THEN 3
+       ELSE IF c >= 240 /\ c <= 244 /\ Cont(at(1)) /\ Cont(at(2)) /\ Cont(at(3))
+               /\ (c = 240 => at(1) >= 144) /\ (c = 244 => at(1) <= 143) THEN 4
+       ELSE 0
+RECURSIVE Utf8From(_, _)
+Utf8From(t, i) == IF i > Len(t) THEN TRUE
+                  ELSE LET n == Utf8Len(t, i) IN n > 0 /\ Utf8From(t, i + n)
+Utf8Valid(t) == Utf8From(t, 1)
+Utf8Text(mm) == \A i \in DOMAIN mm : /\ Utf8Valid(mm[i].name)
+                                      /\ \A k \in DOMAIN mm[i].toks : Utf8Valid(mm[i].toks[k].name)
+
 (***************************************************************************)
 (* Paths (unescaped byte sequences such as "./d/a")                        *)
 (***************************************************************************)
